@@ -15,6 +15,8 @@ def parseHex? (s : String) : Option Nat :=
 
 /-- floats travel as 16-hex-digit IEEE-754 bit patterns -/
 def parseF? (s : String) : Option Float :=
+  let s := if s.startsWith "h" then (s.drop 1).toString else s
+  if s.length != 16 then none else
   (parseHex? s).map (fun n => Float.ofBits n.toUInt64)
 
 def hexChar (n : Nat) : Char :=
@@ -23,7 +25,7 @@ def hexChar (n : Nat) : Char :=
 def toHex16 (n : Nat) : String :=
   String.ofList ((List.range 16).map (fun i => hexChar ((n >>> (4 * (15 - i))) % 16)))
 
-def fmtF (x : Float) : String := toHex16 x.toBits.toNat
+def fmtF (x : Float) : String := "h" ++ toHex16 x.toBits.toNat
 
 def fmtFs (xs : List Float) : String := " ".intercalate (xs.map fmtF)
 
